@@ -2,7 +2,8 @@
 // message received on an HTTP/2 HEADERS frame are decided (C02, C03)
 // Property sentences -> contract:
 //   C02 "every request ... is answered exactly once": a message whose HEADERS frame carries END_STREAM is COMPLETE: it is
-//       left Terminated whatever length it declares (F30: 204 / 304 / 1xx answers stayed "in their body" for ever), and
+//       left Terminated whatever length it declares (F30: 204 / 304 / 1xx answers stayed "in their body" for ever), an
+//       interim response (1xx, the final one follows on the same stream) is a header section and nothing else (F31), and
 //       an answer to HEAD may declare a length without being refused (F29);
 //   C03 "Content-Length disagreeing with DATA ... is rejected": END_STREAM on HEADERS with a non-zero Content-Length is
 //       refused unless the message is one that has no content by definition (1xx, 204, 304, answer to HEAD);
@@ -32,6 +33,10 @@ impl Kawa {
         ensures final(self).verif_pushed@ == old(self).verif_pushed@.push(Pushed::Flags { end_body, end_header, end_stream }), final(self).kind == old(self).kind, final(self).body_size == old(self).body_size, final(self).parsing_phase == old(self).parsing_phase, final(self).detached == old(self).detached
     { proof { self.verif_pushed@ = self.verif_pushed@.push(Pushed::Flags { end_body, end_header, end_stream }); } }
 }
+// an interim response (1xx): a header section and nothing else, the final response follows on the same stream
+pub open spec fn spec_interim(k: Kawa) -> bool {
+    k.kind == Kind::Response && (k.detached.status_line matches StatusLine::Response { code } && 100 <= code && code < 200)
+}
 // a message that has no content by definition
 pub open spec fn spec_no_content(k: Kawa, head_response: bool) -> bool {
     k.kind == Kind::Response && (head_response || (k.detached.status_line matches StatusLine::Response { code } && ((100 <= code && code < 200) || code == 204 || code == 304)))
@@ -45,6 +50,7 @@ pub open spec fn spec_no_content(k: Kawa, head_response: bool) -> bool {
 //@  sig "where\n    C: ParserCallbacks<Checkout>," => ""
 //@  cut "@start" .. "if end_stream {\n        // RFC 9113 §8.1.1: when END_STREAM is set on HEADERS" => "\n    "
 //@  substall "StatusLine::Response { code, .. } if (100..200).contains(&code) || code == 204 || code == 304" => "StatusLine::Response { code } if (100 <= code && code < 200) || code == 204 || code == 304"
+//@  optsubst "StatusLine::Response { code, .. } if (100..200).contains(&code)\n" => "StatusLine::Response { code } if (100 <= code && code < 200)\n"
 //@  resubst "kawa\\.push_block\\(Block::Header\\(Pair \\{\\s*key: Store::Static\\(b\"Content-Length\"\\),\\s*val: Store::Static\\(b\"0\"\\),\\s*\\}\\)\\);" => "kawa.verif_push_content_length_zero();"
 //@  resubst "kawa\\.push_block\\(Block::Header\\(Pair \\{\\s*key: Store::Static\\(b\"Transfer-Encoding\"\\),\\s*val: Store::Static\\(b\"chunked\"\\),\\s*\\}\\)\\);" => "kawa.verif_push_transfer_encoding_chunked();"
 //@  resubst "kawa\\.push_block\\(Block::Flags\\(Flags \\{\\s*end_body: end_stream,\\s*end_chunk: false,\\s*end_header: true,\\s*end_stream,\\s*\\}\\)\\);" => "kawa.verif_push_flags(end_stream, true, end_stream);"
@@ -54,8 +60,10 @@ pub open spec fn spec_no_content(k: Kawa, head_response: bool) -> bool {
 //@    (r is Ok && end_stream) ==> final(kawa).parsing_phase == ParsingPhase::Terminated,              // [a-message-that-ends-on-its-headers-frame-is-terminated-whatever-length-it-declares]
 //@    (end_stream && (old(kawa).body_size matches BodySize::Length(n) && n > 0) && !spec_no_content(*old(kawa), head_response)) ==> r is Err, // [end-stream-with-a-non-zero-content-length-is-refused-unless-the-message-has-no-content-by-definition]
 //@    (end_stream && spec_no_content(*old(kawa), head_response)) ==> r is Ok,                          // [an-answer-without-content-by-definition-is-accepted-whatever-length-it-declares]
-//@    (r is Ok && !end_stream) ==> final(kawa).body_size != BodySize::Empty,                          // [a-message-whose-body-follows-has-a-length-or-is-chunked]
-//@    (r is Ok && !end_stream) ==> (final(kawa).parsing_phase == (match final(kawa).body_size { BodySize::Chunked => ParsingPhase::Chunks { first: true }, BodySize::Length(n) => if n == 0 { ParsingPhase::Terminated } else { ParsingPhase::Body }, BodySize::Empty => ParsingPhase::Chunks { first: true } })), // [the-parsing-phase-of-a-continuing-message-follows-its-framing]
+//@    (r is Ok && !end_stream && !spec_interim(*old(kawa))) ==> final(kawa).body_size != BodySize::Empty, // [a-message-whose-body-follows-has-a-length-or-is-chunked]
+//@    (!end_stream && spec_interim(*old(kawa))) ==> r is Ok && final(kawa).parsing_phase == ParsingPhase::Terminated && final(kawa).body_size == old(kawa).body_size
+//@        && final(kawa).verif_pushed@ =~= old(kawa).verif_pushed@.push(Pushed::Flags { end_body: false, end_header: true, end_stream: false }), // [an-interim-response-is-a-header-section-and-nothing-else-complete-at-once-with-no-framing-header]
+//@    (r is Ok && !end_stream && !spec_interim(*old(kawa))) ==> (final(kawa).parsing_phase == (match final(kawa).body_size { BodySize::Chunked => ParsingPhase::Chunks { first: true }, BodySize::Length(n) => if n == 0 { ParsingPhase::Terminated } else { ParsingPhase::Body }, BodySize::Empty => ParsingPhase::Chunks { first: true } })), // [the-parsing-phase-of-a-continuing-message-follows-its-framing]
 //@    r is Ok ==> final(kawa).verif_pushed@.len() > 0 && final(kawa).verif_pushed@.last() == (Pushed::Flags { end_body: end_stream, end_header: true, end_stream }), // [the-header-section-is-closed-by-a-flags-block-that-carries-end-stream]
 //@    (old(kawa).body_size matches BodySize::Length(_)) ==> final(kawa).body_size == old(kawa).body_size, // [a-declared-length-is-never-rewritten]
 //@end
